@@ -1,3 +1,56 @@
-(** Properties/C08.v — placeholder until the partition theorems are in (Run/OuterProofs.v). *)
-From DarlingModel Require Import Run.Outer.
-Theorem C08_placeholder : True. Proof. exact I. Qed.
+(** Properties/C08.v — Attribute selection, merging across attributes, and forwarding.
+    Statements only; for ANY element-level receiver declaration [b] (attribute names, forward
+    filter, attrs member, ordinary fields of any types) and any user callables. *)
+From DarlingModel Require Import Run.Recv Run.Outer Run.OuterProofs.
+Local Open Scope list_scope.
+
+Section C08.
+  Variable pf : bool -> string -> option N.
+  Variable reparse : grammar -> string -> option string.
+  Variable reparse_arr : string -> option expr.
+  Variable reparse_preds : string -> option (list string).
+  Variable sugg : bool.
+  Variable sim : string -> string -> N.
+  Variable interp_with : fnid -> nested -> res value.
+  Variable interp_fn : fnid -> value -> res value.
+  Variable interp_attrs : fnid -> list attribute -> res value.
+  Notation extract := (extract pf reparse reparse_arr reparse_preds sugg sim interp_with interp_fn interp_attrs).
+  Notation attr_step := (attr_step pf reparse reparse_arr reparse_preds sugg sim interp_with interp_fn).
+
+  (** Several selected attributes on one element are a single list: two attribute lists with the
+      same concatenation of selected items (any way of splitting them, bare and empty attributes
+      interspersed, unrelated attributes anywhere) and the same forwarded attributes give the
+      identical parser state - hence the identical value or identical errors - and the identical
+      `attrs` member. *)
+  Theorem C08_partition_invariant :
+    forall b attrs attrs',
+      Forall (mergeable b) attrs -> Forall (mergeable b) attrs' ->
+      flat_map (sel_items b) attrs = flat_map (sel_items b) attrs' ->
+      filter (forwarded b) attrs = filter (forwarded b) attrs' ->
+      extract b attrs = extract b attrs'.
+  Proof. exact (extract_partition_invariant pf reparse reparse_arr reparse_preds sugg sim interp_with interp_fn interp_attrs). Qed.
+
+  (** Every other attribute, whatever its token content, has no effect. *)
+  Theorem C08_unrelated_attribute_inert :
+    forall b acc a, selected b a = false -> forwarded b a = false -> attr_step b acc a = acc.
+  Proof. exact (unrelated_attribute_inert pf reparse reparse_arr reparse_preds sugg sim interp_with interp_fn). Qed.
+
+  (** The `attrs` member holds exactly the attributes that are not consumed and that
+      forward_attrs selects, unmodified and in source order. *)
+  Theorem C08_forward_exact :
+    forall b attrs st v,
+      Forall (mergeable b) attrs -> ob_attrs b = Some None ->
+      extract b attrs = Ok (st, v) -> v = Some (VList (map attr_toks (filter (forwarded b) attrs))).
+  Proof. exact (forwarded_exact pf reparse reparse_arr reparse_preds sugg sim interp_with interp_fn interp_attrs). Qed.
+End C08.
+
+(** What "forwarded" means: not consumed, a place to keep it and a filter that can select
+    something, and selected by the filter (all, when forward_attrs is given bare). *)
+Theorem C08_forwarded_meaning :
+  forall b a, forwarded b a = (negb (selected b a) && will_fwd b && fwd_selects b a)%bool.
+Proof. reflexivity. Qed.
+
+Print Assumptions C08_partition_invariant.
+Print Assumptions C08_unrelated_attribute_inert.
+Print Assumptions C08_forward_exact.
+Print Assumptions C08_forwarded_meaning.
